@@ -105,12 +105,13 @@ class CylindricalSymGrid(GridBase):
         if len(bounds_z) != 2:
             msg = "Lower and upper value of the axial coordinate must be specified"
             raise ValueError(msg)
+        bounds_z = tuple(float(b) for b in bounds_z)  # type: ignore
         self._periodic_z: bool = bool(periodic_z)  # might cast from np.bool_
         self._periodic = [False, self._periodic_z]
 
         # radial discretization
         try:
-            r_inner, r_outer = radius  # type: ignore
+            r_inner, r_outer = (float(r) for r in radius)  # type: ignore
         except TypeError:
             r_inner, r_outer = 0, float(radius)  # type: ignore
 
@@ -129,7 +130,7 @@ class CylindricalSymGrid(GridBase):
         assert np.isclose(zs[-1] + dz / 2, bounds_z[1])
 
         self._axes_coords = (rs, zs)
-        self._axes_bounds = ((r_inner, r_outer), tuple(bounds_z))  # type: ignore
+        self._axes_bounds = ((r_inner, r_outer), bounds_z)  # type: ignore
         self._discretization = np.array((dr, dz))
 
     @property
